@@ -47,6 +47,15 @@ func (mp *MemPool) VerifAge(acc []byte) bool {
 	return true
 }
 
+// VerifIsIdle reports whether the account's list has been idle for longer than the eviction period (by the list's own
+// time stamp): such a list is what the next eviction run may take.
+func (mp *MemPool) VerifIsIdle(acc []byte) bool {
+	mp.RLock()
+	defer mp.RUnlock()
+	l, ok := mp.pool[types.ToAccountID(acc)]
+	return ok && time.Since(l.lastTime) > evictPeriod
+}
+
 // VerifAdmit is the full admission path of a transaction received from a client or peer:
 // signature / format verification, then validation and insertion.
 func (mp *MemPool) VerifAdmit(tx *types.Tx) error {
